@@ -206,7 +206,10 @@ func Sig(cluster string, n int) string {
 }
 
 // HintKinds names the hint mixes a generated locator can carry.
-var HintKinds = []string{"none", "A", "K+A", "A+K", "K", "R", "K+A+K2", "A+A"}
+var HintKinds = []string{"none", "A", "K+A", "A+K", "K", "R", "K+A+K2", "A+A", "A+K+B", "K+A+K+B+C"}
+
+// HintKinds3 is the reduced list used for streams of three locators.
+var HintKinds3 = []string{"none", "A", "K+A+K+B+C", "A+A"}
 
 // HintKindsLegacy: the mixes keepclient.SignedLocatorRe is written for (at most one signature).
 func Hints(kind, cluster string, n int) string {
@@ -228,6 +231,12 @@ func Hints(kind, cluster string, n int) string {
 		return "+Kzzzzz" + Sig(cluster, n) + "+Bq-_@9"
 	case "A+A":
 		return Sig(cluster, n) + Sig(cluster, n+1000)
+	case "A+K+B":
+		// two hints after the signature
+		return Sig(cluster, n) + "+Kzzzzz" + "+Bq-_@9"
+	case "K+A+K+B+C":
+		// one hint before and three different hints after the signature
+		return "+Kzzzzz" + Sig(cluster, n) + "+Kzaaaa" + "+Bq-_@9" + "+Cx9"
 	}
 	panic("vfed: unknown hint kind " + kind)
 }
